@@ -1189,6 +1189,25 @@ pub(crate) fn verify_mmr_proof<'a, T: Iterator<Item = &'a HeaderView>>(
         let errmsg = format!("the end number ({}) of the chain root is too big", end_number);
         return Err(StatusCode::InvalidProof.with_context(errmsg));
     }
+    // Merging digests adds their total difficulties and steps their block numbers with unchecked
+    // arithmetic: every digest of an honest proof covers a part of what the chain root covers, so
+    // reject anything bigger before it can overflow (the sum of all digests stays below 2^256).
+    let root_total_difficulty: U256 = parent_chain_root.total_difficulty().unpack();
+    if root_total_difficulty >= (U256::one() << 224) {
+        let errmsg = format!(
+            "the total difficulty ({:#x}) of the chain root is too big",
+            root_total_difficulty
+        );
+        return Err(StatusCode::InvalidProof.with_context(errmsg));
+    }
+    for header_digest in raw_proof.iter() {
+        let total_difficulty: U256 = header_digest.total_difficulty().to_entity().unpack();
+        let digest_end_number: BlockNumber = header_digest.end_number().to_entity().unpack();
+        if total_difficulty > root_total_difficulty || digest_end_number > end_number {
+            let errmsg = "a digest in the proof exceeds the chain root";
+            return Err(StatusCode::InvalidProof.with_context(errmsg));
+        }
+    }
     let proof: MMRProof = {
         let mmr_size = leaf_index_to_mmr_size(end_number);
         let proof = raw_proof
@@ -1207,6 +1226,10 @@ pub(crate) fn verify_mmr_proof<'a, T: Iterator<Item = &'a HeaderView>>(
                 }
                 let position = leaf_index_to_pos(index);
                 let digest = header.digest();
+                let total_difficulty: U256 = digest.total_difficulty().unpack();
+                if total_difficulty > root_total_difficulty {
+                    return Err(format!("block#{} is heavier than the chain root", index));
+                }
                 digest.verify()?;
                 Ok((position, digest))
             })
